@@ -237,3 +237,25 @@ Proof.
   - intros g cur a k. reflexivity.
   - intros g cur a k. reflexivity.
 Qed.
+
+(* ------------------------------------------------------------------------------------------- *)
+(* The registration round that follows a refresh.                                               *)
+
+Lemma registration_safe : forall c, safe c -> is_ok (registration_round c) = true.
+Proof.
+  intros c H. unfold registration_round. specialize (H reg_account reg_pubkey).
+  destruct (lookup true c reg_account reg_pubkey); [reflexivity | reflexivity | congruence].
+Qed.
+
+Lemma registration_none : registration_round None = Ok [].
+Proof. reflexivity. Qed.
+
+(* over every history of documents the round after the last refresh completes *)
+Lemma registration_no_panic : forall ds, is_ok (registration_round (refresh_all true None ds)) = true.
+Proof. intro ds. apply registration_safe. apply refresh_all_safe. exact safe_none. Qed.
+
+(* with the allocating decoder the round after a `null` document panics *)
+Lemma registration_by_value_necessary : forall g cur,
+  registration_round (refresh_gen g false cur (DBare BNull)) = Panic /\
+  registration_round (refresh_gen g true cur (DBare BNull)) = registration_round cur.
+Proof. intros g cur. split; reflexivity. Qed.
